@@ -13,6 +13,15 @@ imported to *drive* the library interface, never for the oracle):
   hashes      BLAKE2B+SHA512 unless -H; sorted unless sort=False; watermark 128 unless -c; top-level Manifest and
               (old-ebuild) Manifests holding EBUILD entries stay plain
   verifies    reference verdict 'match' and a fresh default-profile gemato loader verifies the tree
+
+Family 'explicit' (explicit overrides beat the profile defaults): for the ebuild and old-ebuild profiles the full
+product {compress format given (bz2, xz, lzma; thorough also gz) / not} x {watermark given (0, 1; thorough also 200) /
+not} x {hashes given (SHA1) / not} x {sort given (False, True — library only, the CLI has no such option) / not} x
+interface {CLI -C/-c/-H, library compress_format/compress_watermark/hashes/sort}.  Oracle: every option that was
+given is what the written Manifests show, every option that was not given shows the profile default (format gz,
+watermark 128, BLAKE2B+SHA512, sorted): a sub-Manifest whose uncompressed size reaches the effective watermark is
+stored as Manifest.<effective format>, and nothing else is compressed (so with an explicit watermark of 0 or 1 every
+rewritten sub-Manifest is compressed, also those shorter than the profile's 128 bytes).
 """
 
 import itertools
@@ -33,7 +42,11 @@ RULE = ('repository shapes of gverif/repogen.py — quick: one varying package o
         'components (2^16) with {ebuild, old-ebuild reversed}. '
         'Each tree x create with {default, ebuild, old-ebuild under sorted AND reversed scandir order}; package/alike/'
         'odd families x overrides {-H SHA1, -H SHA1 -c 0, -c 10^6, -c S and S+1 for S = size of a real sub-Manifest, '
-        'library sort=False/True, library defaults}; package family x {6 edits -> update} x profile and all 6 ordered '
+        'library sort=False/True, library defaults}; family explicit = create with {ebuild, old-ebuild} x full product '
+        '{-C/compress_format: not given, bz2, xz, lzma (thorough: +gz)} x {-c/compress_watermark: not given, 0, 1 (thorough: '
+        '+200)} x {-H/hashes: not given, SHA1} x {CLI; library with sort not given, False, True} = 192 (thorough 320) '
+        'creates per shape, on the odd family with the full repository level, every shape with every optional component and the full repository level '
+        'without packages (quick: 25 shapes; thorough: whole odd family, every shape with every optional component on every grid, all-alike square and package-less grids with the full repository level); package family x {6 edits -> update} x profile and all 6 ordered '
         'profile pairs P->Q with and without edits. case = (shape, step list); non-trivial = every step completed and '
         'the reference verdict was definite')
 ASSUMPTIONS = [
@@ -42,6 +55,9 @@ ASSUMPTIONS = [
     'a Manifest that existed before a step (pre-existing package Manifest, or written by an earlier step) is '
     'expected to stay; tags/hash sets of entries that existed before a step are not judged (update preserves them)',
     'sorting, compression name and hash set are judged on Manifests the step wrote (new or changed bytes)',
+    'an explicitly given option (hashes, sort, compression watermark, compression format) wins over the profile default; '
+    'an option not given takes the profile default (ebuild profiles: BLAKE2B SHA512, sorted, watermark 128, format gz); '
+    'the compression format is judged only where a watermark is in effect (default profile without -c: left as is)',
     'DONT_CARE: deliberate NotImplementedError when a default-IGNOREd name is already listed in a parent Manifest; '
     'tags of depth-3+ *.ebuild files, of a regular file named files, and of files/-looking paths outside '
     '<category>/<package>; placement in a top-level directory whose only sub-directories are hidden or IGNOREd',
@@ -121,12 +137,13 @@ def ref_tag(profile, path):
 
 
 def ref_settings(profile, o):
-    """-> (hash set, sort demanded?, watermark or None)"""
+    """-> (hash set, sort demanded?, watermark or None, compression format)"""
     ebuildish = profile in ('ebuild', 'old-ebuild')
     hashes = tuple(o['H'].split()) if o.get('H') else (('BLAKE2B', 'SHA512') if ebuildish else None)
     sort = o['sort'] if o.get('sort') is not None else ebuildish
     wm = o['c'] if o.get('c') is not None else (128 if ebuildish else None)
-    return hashes, sort, wm
+    fmt = o['C'] if o.get('C') else 'gz'
+    return hashes, sort, wm, fmt
 
 
 # ------------------------------------------------------------------ reading the disk
@@ -284,6 +301,8 @@ def run_step(root, step):
                 kw['sort'] = o['sort']
             if o.get('c') is not None:
                 kw['compress_watermark'] = o['c']
+            if o.get('C'):
+                kw['compress_format'] = o['C']
             if op == 'create':
                 kw['allow_create'] = True
             m = gem.loader(root, TOP, **kw)
@@ -297,6 +316,8 @@ def run_step(root, step):
             argv += ['-H', o['H']]
         if o.get('c') is not None:
             argv += ['-c', str(o['c'])]
+        if o.get('C'):
+            argv += ['-C', o['C']]
         argv.append(root)
         fn = (lambda: gem.cli(argv))
     order = step.get('order')
@@ -373,7 +394,7 @@ def sort_ok(entries):
 def judge_step(root, before, after, step, stats=None):
     """-> list of (check, message, extra-sig); DONT_CARE reasons are counted on stats."""
     profile, o = step['profile'], step['opts']
-    hashes, sort, wm = ref_settings(profile, o)
+    hashes, sort, wm, fmt = ref_settings(profile, o)
     bad = []
 
     def dc(reason):
@@ -441,14 +462,25 @@ def judge_step(root, before, after, step, stats=None):
                 viol('compression', f'top-level Manifest is named {m["name"]}', which='top')
             elif d != '':
                 got_c = comp_of(m['name'])
-                if (got_c is not None) != exp_c or (got_c not in (None, 'gz')):
+                exp_name = f'Manifest.{fmt}' if exp_c else 'Manifest'
+                if (got_c is not None) != exp_c or (got_c not in (None, 'gz') and not o.get('C')):
                     viol('compression', f'{p}: {len(m["text"])} bytes uncompressed, watermark {wm}, EBUILD entries: '
-                         f'{has_ebuild}; expected {"Manifest.gz" if exp_c else "Manifest"}',
+                         f'{has_ebuild}; expected {exp_name}',
                          which='package_with_EBUILD' if has_ebuild else
                          ('should_be_compressed' if exp_c else 'should_be_plain'))
+                elif exp_c and got_c != fmt:
+                    viol('compression', f'{p}: {len(m["text"])} bytes uncompressed, watermark {wm} '
+                         f'({"given" if o.get("c") is not None else "profile default"}), compression format '
+                         f'{fmt} ({"explicitly given" if o.get("C") else "default"}): stored as {m["name"]}, '
+                         f'expected {exp_name}', which='wrong_format',
+                         format_given=bool(o.get('C')), watermark_given=o.get('c') is not None)
                 if stats is not None:
                     stats.counters['compression/' + ('gz' if exp_c else 'plain_ebuild' if has_ebuild and
                                                      profile == 'old-ebuild' else 'plain_small')] += 1
+                    if o.get('C'):
+                        stats.counters['explicit_format_outcome/' + ('compressed' if exp_c else 'plain')] += 1
+                    if exp_c:
+                        stats.counters[f'compression_format/{fmt}/' + ('given' if o.get('C') else 'default')] += 1
         if hashes is not None:
             for e in ents:
                 full = _j(d, rm.full_path(e[0], e[1]))
@@ -603,6 +635,25 @@ def override_cases(sh, seed):
     yield 'override', [step('create', 'default', opt(iface='lib', sort=False, H='MD5 SHA1', c=150), order='reversed')]
 
 
+EXPLICIT_FORMATS = {'quick': (None, 'bz2', 'xz', 'lzma'), 'thorough': (None, 'bz2', 'xz', 'lzma', 'gz')}
+EXPLICIT_WATERMARKS = {'quick': (None, 0, 1), 'thorough': (None, 0, 1, 200)}
+EXPLICIT_HASHES = (None, 'SHA1')
+EXPLICIT_IFACE_SORT = (('cli', None), ('lib', None), ('lib', False), ('lib', True))
+
+
+def explicit_cell(o):
+    return 'C{}c{}H{}s{}/{}'.format(*(int(o.get(k) is not None) for k in ('C', 'c', 'H', 'sort')), o['iface'])
+
+
+def explicit_cases(sh, seed, tier):
+    """Full product of given / not given for the four overridable settings, both interfaces, both ebuild profiles."""
+    for p, (iface, srt), fm, wm, hs in itertools.product(('ebuild', 'old-ebuild'), EXPLICIT_IFACE_SORT,
+                                                         EXPLICIT_FORMATS[tier], EXPLICIT_WATERMARKS[tier],
+                                                         EXPLICIT_HASHES):
+        yield 'explicit', [step('create', p, opt(iface=iface, sort=srt, C=fm, c=wm, H=hs),
+                                order='reversed' if iface == 'lib' else None)]
+
+
 def sequence_cases(sh, seed, tier):
     for e in EDITS:
         for p in PROFILES:
@@ -668,6 +719,15 @@ def run_shard(spec, tier, seed, scratch):
                 (fam == 'alike' and full_repo and grid[0] == grid[1])
         if over:
             gens.append(override_cases(sh, seed))
+        if tier == 'quick':
+            expl = (fam == 'odd' and full_repo) or (fam in ('pkg', 'alike') and repogen.has_all_optional(sh)) or \
+                (fam == 'alike' and full_repo and grid[1] == 0)
+        else:
+            expl = fam == 'odd' or (fam in ('pkg', 'alike') and repogen.has_all_optional(sh)) or \
+                (fam == 'alike' and full_repo and (grid[1] == 0 or grid[0] == grid[1]))
+        if expl:
+            stats.counters['shapes_explicit'] += 1
+            gens.append(explicit_cases(sh, seed, tier))
         if seq:
             gens.append(sequence_cases(sh, seed, tier))
             gens.append(watermark_cases(sh, seed, scratch))
@@ -683,6 +743,11 @@ def run_shard(spec, tier, seed, scratch):
             stats.counters['sequences/' + kind] += 1
             if ok:
                 stats.counters['sequences_ok/' + kind] += 1
+            if kind == 'explicit':
+                cell = explicit_cell(steps[0]['opts'])
+                stats.counters['explicit_cell/' + cell] += 1
+                if ok:
+                    stats.counters['explicit_cell_ok/' + cell] += 1
             if len(stats.samples) < 1 and kind == 'edit_update' and ok:
                 stats.sample({'shape': sh, 'steps': steps})
             for x in vs:
@@ -698,7 +763,7 @@ def finish(total, tier):
             errs.append(f'vacuity: no successful create with profile {p}')
         if not any(k.startswith(f'update/{p}/ret:0') for k in total.outcomes):
             errs.append(f'vacuity: no successful update with profile {p}')
-    for kind in ('create', 'override', 'edit_update', 'profile_switch', 'three_steps', 'watermark'):
+    for kind in ('create', 'override', 'edit_update', 'profile_switch', 'three_steps', 'watermark', 'explicit'):
         if c.get('sequences_ok/' + kind, 0) < 1:
             errs.append(f'vacuity: no fully successful sequence of kind {kind}')
     for t in ('DATA', 'EBUILD', 'MISC', 'AUX'):
@@ -707,6 +772,19 @@ def finish(total, tier):
     for k in ('compression/gz', 'compression/plain_ebuild', 'compression/plain_small'):
         if c.get(k, 0) < 1:
             errs.append(f'vacuity: compression class {k} never judged')
+    for f_ in EXPLICIT_FORMATS[tier]:
+        k = f'compression_format/{f_}/given' if f_ else 'compression_format/gz/default'
+        if c.get(k, 0) < 1:
+            errs.append(f'vacuity: no Manifest expected in compression format {k.split("/", 1)[1]} was judged')
+    for C_, c_, H_, (iface, s_) in itertools.product((0, 1), (0, 1), (0, 1), sorted({(i, int(s is not None)) for i, s in
+                                                                                    EXPLICIT_IFACE_SORT})):
+        cell = f'C{C_}c{c_}H{H_}s{s_}/{iface}'
+        if c.get('explicit_cell/' + cell, 0) < 1:
+            errs.append(f'vacuity: explicit-override cell {cell} was never explored')
+    for k in ('compressed', 'plain'):
+        if c.get('explicit_format_outcome/' + k, 0) < 1:
+            errs.append(f'vacuity: with an explicit compression format no sub-Manifest expected {k} was judged '
+                        '(single outcome class)')
     for d in ('top', 'metadata', 'metadata/dtd', 'metadata/glsa', 'metadata/news', 'metadata/xml-schema'):
         if c.get('default_ignores_checked/' + d, 0) < 1:
             errs.append(f'vacuity: default IGNORE lines of {d} never judged')
@@ -724,4 +802,5 @@ def finish(total, tier):
 
 
 def extra_evidence(total, tier):
-    return {'space': {k: v for k, v in sorted(total.counters.items()) if k.startswith(('shapes', 'sequences/'))}}
+    return {'space': {k: v for k, v in sorted(total.counters.items()) if k.startswith(('shapes', 'sequences/', 'explicit_cell/',
+                                                                                    'compression_format/'))}}
